@@ -28,6 +28,8 @@ def run(ctx: Context) -> None:
     from . import c02 as _c02
     from .common import share_obligations as _share
     _share(ctx, _c02, {'R02.3'}, 'R10.7', only=lambda ob: 'UGrid._make_polygons' in ob.function)
+    from .common import adopt_foundations as _adopt
+    _adopt(ctx, 'R10.8', ['geometry'], floor=30)
     ctx.assume("numpy.ma masked_invalid / masked_equal / masked_array semantics; UGRID attribute names are fixed by the specification")
 
     # ------------------------------------------------------------------ R10.1
